@@ -8,7 +8,7 @@ for d in seeded/C*-*/; do
   if [ -n "${IDS:-}" ] && ! echo " $IDS " | grep -q " $id "; then continue; fi
   chk=$id
   # seeds that are, by design, caught by another property's check
-  case $name in C07-3|C07-6) chk=C08;; esac
+  case $name in C07-3|C07-6|C07-7) chk=C08;; esac
   out=$(./scripts/seedtest.sh $chk $d/patch.diff quick 2>&1); rc=$?
   v=$(echo "$out" | grep -c '^VIOLATION')
   verdict=MISSED; [ $rc -eq 1 ] && [ $v -gt 0 ] && verdict=CAUGHT; [ $rc -eq 2 ] && verdict=HARNESS-ERROR
